@@ -191,6 +191,8 @@ class Killer(Process):
         self.n = 0
 
     def ports_schema(self):
+        if self.parameters['mode'] == 'move':
+            return {'agents': {'*': {}}, 'agents2': {'*': {}}}
         return {'agents': {'*': {}}}
 
     def calculate_timestep(self, states):
@@ -203,6 +205,8 @@ class Killer(Process):
         target = self.parameters['target']
         if self.parameters['mode'] == 'delete':
             return {'agents': {'_delete': [target]}}
+        if self.parameters['mode'] == 'move':
+            return {'agents': {'_move': [{'source': (target,), 'target': 'agents2'}]}}
         daughters = []
         for k in ('d1', 'd2'):
             params = {'ts': self.parameters['daughter_ts'], 'var': 'x'}
